@@ -72,4 +72,16 @@ Theorem from_mdp_repr : forall d, from_mdp_read d = Some (dist_outcome d).
 Proof. exact SearchTheory.from_mdp_repr. Qed.
 Print Assumptions from_mdp_repr.
 
+(* potential certificate (problems with thousands of states, where running bf_dist is too slow):
+   accepted => the result is a plan and satisfies every clause of the property *)
+Theorem pot_cert_sound : forall g start phi r,
+  wf_graph g -> (start < g_n g)%nat -> pot_cert g start phi r = true -> r <> None /\ valid_plan g start r.
+Proof. exact SearchAStar.pot_cert_sound. Qed.
+Print Assumptions pot_cert_sound.
+
+Theorem bfs_pot_cert_sound : forall g start phi r,
+  wf_graph g -> (start < g_n g)%nat -> bfs_pot_cert g start phi r = true -> r <> None /\ valid_bfs_plan g start r.
+Proof. exact SearchAStar.bfs_pot_cert_sound. Qed.
+Print Assumptions bfs_pot_cert_sound.
+
 (* non-vacuity witnesses: SearchTheory.ex_wf / ex_bf / ex_cert, SearchBFS.bfs_example, SearchAStar.astar_example *)
